@@ -35,7 +35,7 @@ def main(tier, replay):
     proof_broken = not gate["ok"]
     env = vlib.goenv(); env["VERIF_SEED"] = str(vlib.SEED); env["VERIF_TIER"] = tier
     okm, modelrun = vlib.build_model("Codec")
-    okg, exe = vlib.go_build("codec")
+    okg, exe = vlib.go_build("codec", roots=("overlay", "ov_codec"))
     stats, samples, mism, pfails = {}, [], [], []
     if okg and okm:
         case = None
@@ -77,7 +77,7 @@ def main(tier, replay):
     cls = stats.get("classes", {})
     cov.update(evaluations=stats.get("cases", 0) + stats.get("props", 0),
                distinct_nontrivial=stats.get("distinct", 0),
-               rule="exhaustive strings over {00,01,7F,80,FE,FF} up to length %s + random around multiples of 8 + mutated encodings as malformed stream + all decoders on all comparable-varint tags + integers around sign/byte/varint boundaries ±2 and random; distinct = distinct (op,input,result) lines" % ("5" if tier == "quick" else "7"),
+               rule="exhaustive strings over {00,01,7F,80,FE,FF} up to length %s + random around multiples of 8 + mutated encodings as malformed stream + all decoders on all comparable-varint tags + integers around sign/byte/varint boundaries ±2 and random + composite keys (mvccEncode/mvccDecode with boundary versions, meta keys, truncated/extended/flipped encodings; memcomparable key codec); distinct = distinct (op,input,result) lines" % ("5" if tier == "quick" else "7"),
                samples=samples, traces_validated_against_impl=stats.get("cases", 0),
                input_distribution=cls, model_mismatches=len(mism), oracle_failures=len(pfails))
     if tier == "thorough" and not proof_broken:
